@@ -256,7 +256,8 @@ fn main() {
     // Run everything inside the pool so that the deep-nesting probes get the large stacks.
     let known = rayon::scope(|_| {
         replay_tier(&id, &ctx);
-        let k = run_property(&id, &ctx);
+        // developer switch: only the libFuzzer campaigns of the thorough tier
+        let k = if std::env::var("VERIF_ONLY_FUZZ").is_ok() && tier == Tier::Thorough { true } else { run_property(&id, &ctx) };
         if k && tier == Tier::Thorough {
             // coverage-guided campaigns behind the same oracles (see DESIGN.md, "Fuzz targets")
             let (targets, runs): (&[&str], u64) = match id.as_str() {
